@@ -196,6 +196,16 @@ def fixed_families():
     cfg = {"force-file-write": True, "all": True, "template": "testify", "filename": "mock_{{.InterfaceName}}_test.go", "packages": {MOD + "/g": {}}}
     files[".mockery.yml"] = json.dumps(cfg, indent=1)
     fams.append({"kind": "family", "i": -1 - len(fams), "files": files, "placement": "generic-interfaces-all-constraint-forms"})
+    # a recursive package whose mocks go into a new directory *below each source package*: the first run creates sub-directories that the second
+    # run's sub-package discovery meets (holding only _test.go files, or ordinary files of a package named mocks)
+    for tag, fn in (("recursive-output-below-package-test-only", "mocks_test.go"), ("recursive-output-below-package", "mocks.go")):
+        files = {}
+        for d, nm in (("svc", "Alpha"), ("svc/inner", "Beta"), ("svc/inner/deep", "Gamma"), ("other", "Zeta")):
+            files[d + "/s.go"] = "package %s\n\ntype %s interface{ M(x int) error }\n" % (d.rsplit("/", 1)[-1], nm)
+        cfg = {"all": True, "force-file-write": True, "dir": "{{.InterfaceDir}}/mocks", "filename": fn, "pkgname": "mocks",
+               "packages": {MOD + "/svc": {"config": {"recursive": True}}, MOD + "/other": {}}}
+        files[".mockery.yml"] = json.dumps(cfg, indent=1)
+        fams.append({"kind": "family", "i": -1 - len(fams), "files": files, "placement": tag})
     # one output file addressed through two spellings of its directory (relative, and through {{.InterfaceDir}}), from a real working directory and
     # from one reached through a symbolic link: both mocks are in the file in every run
     for tag, link in (("one-file-two-dir-spellings", False), ("one-file-two-dir-spellings-cwd-via-symlink", True)):
